@@ -63,11 +63,14 @@ class FieldReader:
             d = self.src.read(3)
             value = (d[0] << 16) + (d[1] << 8) + d[2]
         elif size == 'S0':
-            value = ''
+            # collect the bytes up to the NUL and decode them together, so that
+            # multi-byte UTF-8 sequences are accepted
+            data = bytearray()
             d = self.src.read(1)
             while ord(d) != 0:
-                value += str(d, 'utf-8')
+                data += d
                 d = self.src.read(1)
+            value = str(bytes(data), 'utf-8')
             if self.log and self.log.isEnabledFor(logging.DEBUG):
                 self.log.debug('%s: read %s size=%d pos=%d value="%s"',
                                self.name, field,
